@@ -29,6 +29,13 @@ def _cargo_kani(harnesses, extra=(), timeout=900):
     for h in harnesses:
         cmd += ["--harness", h]
     cmd += list(extra)
+    # one Kani run at a time: concurrent checks share the target directory, and the clean-up below kills
+    # every cbmc process (found when C10 / C12 / C18 were run in parallel: the first to finish killed the
+    # solvers of the others, which then reported "harness not found" -> a spurious exit 2)
+    import fcntl
+    os.makedirs(os.path.dirname(TARGET), exist_ok=True)
+    lock = open(os.path.join(os.path.dirname(TARGET), "kani.lock"), "w")
+    fcntl.flock(lock, fcntl.LOCK_EX)
     t0 = time.time()
     try:
         p = subprocess.run(["timeout", "-k", "5", str(timeout)] + cmd, cwd=REPO, capture_output=True, text=True, env=env)
@@ -37,6 +44,8 @@ def _cargo_kani(harnesses, extra=(), timeout=900):
             out += "\nKANI-TIMEOUT"
     finally:
         subprocess.run("pkill -f '[c]bmc --no-malloc-may' 2>/dev/null", shell=True)
+        fcntl.flock(lock, fcntl.LOCK_UN)
+        lock.close()
     return cmd, out, time.time() - t0
 
 
